@@ -400,6 +400,58 @@ func m3Core(p *an.Prog, r *an.Result) {
 					fmt.Sprintf("%s writes %s, which is reached through the captured variable %q; %s, so the cell is shared by every later invocation (every render of the template, from any goroutine)", name, describe(p, w.dst), fv.Name(), why))
 			}
 		}
+		// a captured slice, map or pointer handed to a function that writes through that parameter
+		// is written just the same (the argument vector made once per expression and filled per call)
+		if esc.why[fn] != "" && !underOnceDo(esc, fn) {
+			ma := getMut(p)
+			an.EachInstr(fn, func(in ssa.Instruction) {
+				ci, ok := in.(ssa.CallInstruction)
+				if !ok {
+					return
+				}
+				c := ci.Common()
+				if _, isB := c.Value.(*ssa.Builtin); isB {
+					return
+				}
+				args := an.Args(c)
+				for i, a := range args {
+					if !isRefType(a.Type()) {
+						continue
+					}
+					var fv *ssa.FreeVar
+					for _, o := range an.Origins(a, addrStep) {
+						if x, ok := o.(*ssa.FreeVar); ok {
+							fv = x
+						}
+					}
+					if fv == nil {
+						continue
+					}
+					idx := -1
+					for k, x := range fn.FreeVars {
+						if x == fv {
+							idx = k
+						}
+					}
+					shared, why := esc.sharedFreeVar(fn, idx, 0)
+					if !shared {
+						continue
+					}
+					for _, t := range ma.targets(ci, map[*ssa.Function]bool{}) {
+						sm := ma.sums[t]
+						if sm == nil || sm.mutFrom[i] == nil || len(sm.mutFrom[i][0]) == 0 {
+							continue
+						}
+						for _, src := range sm.mutFrom[i][0] {
+							bad++
+							r.Bad(name, "captured "+fv.Name()+" handed to "+an.FuncName(t)+", which writes through it", an.InstrPos(in),
+								fmt.Sprintf("%s passes %s, reached through the captured variable %q, to %s, which performs a %s at %s; %s, so every invocation (every render, from any goroutine) writes the same storage", name, describe(p, a), fv.Name(), an.FuncName(t), src.what, p.Pos(src.pos), why))
+							break
+						}
+					}
+				}
+			})
+		}
 		if bad == 0 {
 			if why := esc.why[fn]; why != "" {
 				r.OK(name, "captures "+fvNames(fn), an.FuncPos(fn), "escaping closure ("+why+"): no store or map update is rooted at a captured variable")
